@@ -24,11 +24,16 @@ renderer model (`Model/Render*.lean`):
                                state the interpreted statements compute
   (the writer: `Props.C01Facts.flush_from_source`; attribute tables / delta order: `attrToks_from_source`, `penDelta_order`)
 
+  nullLoop_body_eq_model       the two nulling loops `for i := 1; i < skip+1; i += 1 { … }` (executed with `break`, the `dirty`
+                               extension and `last[col+i] = Cell{}`) = `Lemmas/RenderLoop.nullLoop`
+
 A source change in one of these blocks changes the regenerated text, hence the atoms the interpreter
-reads (`Atom.unknown` for a text it does not know) and breaks exactly the theorem of that block.  The
-frame around the blocks — `for col`, the bodies of the two nulling loops (`for i := 1; i < skip+1; i += 1`, the
-model's skip branch) and the final `col += skip` — stays pinned (`Props.C01Facts.facts_render`), as do the inner lines of the colour / attribute / underline
-blocks (executed as wholes; tables and order interpreted by `attrToks_from_source` / `penDelta_order`).
+reads (`Atom.unknown` for a text it does not know) and breaks exactly the theorem of that block.
+Hand-written and pinned by `Props.C01Facts.facts_render` only: the ORDER in which the blocks follow each
+other in the loop body and in `render()` (`iterI`, `rowsI`, `renderBodyI` glue the interpreted blocks in
+source order; the loop headers `for col := 0; col < len(row); col += 1` and `for row := range …` with
+`reposition = true; dirty := 0` are in that glue), and the inner lines of the colour / attribute / underline
+blocks (executed as wholes; their tables and order are interpreted by `attrToks_from_source` / `penDelta_order`).
 -/
 import VaxisModel.Model.RenderInterp
 import VaxisModel.Model.RenderSixel
@@ -314,7 +319,7 @@ theorem written_state (cw : String → Nat) (caps : Caps) (st : RSt) (m l : Cell
   simp only [e, writtenEnv]
   unfold runP
   rw [written_prog, hl]
-  simp [exec, execArms, evalG, evalS, List.dropWhile, List.takeWhile, apply_ite Env.cont, apply_ite Env.ret, apply_ite Env.unknown,
+  simp [exec, execArms, evalG, evalS, List.dropWhile, List.takeWhile, apply_ite Env.cont, apply_ite Env.ret, apply_ite Env.brk, apply_ite Env.unknown,
     apply_ite Env.reposition, apply_ite Env.lastSet, apply_ite Env.dirty, apply_ite Env.out, apply_ite Env.cursor, apply_ite Env.next,
     apply_ite Env.link, apply_ite Env.linkPs, apply_ite Env.idx, apply_ite Env.endv, apply_ite Env.col, apply_ite Env.row]
 
@@ -329,7 +334,7 @@ theorem written_out (cw : String → Nat) (caps : Caps) (st : RSt) (m l : Cell) 
   rw [written_prog, hl]
   cases hrep : st.reposition <;> by_cases hk : st.pen.link = "" <;> by_cases hw : m.w = 0
   all_goals
-    simp [exec, execArms, evalG, evalS, List.dropWhile, List.takeWhile, apply_ite Env.cont, apply_ite Env.ret, apply_ite Env.unknown,
+    simp [exec, execArms, evalG, evalS, List.dropWhile, List.takeWhile, apply_ite Env.cont, apply_ite Env.ret, apply_ite Env.brk, apply_ite Env.unknown,
       apply_ite Env.reposition, apply_ite Env.lastSet, apply_ite Env.dirty, apply_ite Env.out, apply_ite Env.cursor, apply_ite Env.next,
       apply_ite Env.link, apply_ite Env.linkPs, apply_ite Env.idx, apply_ite Env.endv, apply_ite Env.col, apply_ite Env.row,
       hrep, hk, hw, VaxisModel.Lemmas.RenderDisplay.cellToks, penDelta, glyphTok, glyphTokW, resolvedW, lpField_cut_if, ite_append_right,
@@ -486,6 +491,171 @@ theorem render_frame_body_eq_model (cw : String → Nat) (f : Frame) (pen : Styl
   · cases h1 : f.cursorNext.visible <;> cases h2 : f.cursorLast.visible <;>
       simp [exec, evalG, evalS, List.dropWhile, List.takeWhile, h1, h2]
 
+
+/-! ### the two nulling loops -/
+
+open VaxisModel.Lemmas.RenderLoop
+
+def nullBlock1 : List Line := blockAt G 3 "for" "i:=1;i<skip+1;i+=1"
+def nullBlock2 : List Line := blockAt G 2 "for" "i:=1;i<skip+1;i+=1"
+
+theorem null_progs :
+    prog nullBlock1 = [(3, .for_, .nullLoop), (4, .if_, .colIBeyond), (5, .stmt, .break_), (4, .stmt, .lastINull)] ∧
+    prog nullBlock2 = [(2, .for_, .nullLoop), (3, .if_, .colIBeyond), (4, .stmt, .break_), (3, .if_, .endLastIDirty),
+      (4, .stmt, .dirtyEnd), (3, .stmt, .lastINull)] := by
+  decide +kernel
+
+def body2 : List (Nat × Kind × Atom) :=
+  [(3, .if_, .colIBeyond), (4, .stmt, .break_), (3, .if_, .endLastIDirty), (4, .stmt, .dirtyEnd), (3, .stmt, .lastINull)]
+
+theorem loopI_succ (cw : String → Nat) (caps : Caps) (f : Nat) (body : List (Nat × Kind × Atom)) (e : Env) :
+    loopI cw caps (f + 1) body e =
+      if e.i < e.skipv + 1 then
+        (if (exec cw caps f body e).brk then { exec cw caps f body e with brk := false }
+         else loopI cw caps f body { exec cw caps f body e with i := (exec cw caps f body e).i + 1 })
+      else e := by
+  rw [loopI]
+
+def body1 : List (Nat × Kind × Atom) := [(4, .if_, .colIBeyond), (5, .stmt, .break_), (4, .stmt, .lastINull)]
+
+/-- The second nulling loop, from iteration `i` on, with `r` iterations left. -/
+theorem loop2_eq (cw : String → Nat) (caps : Caps) (col skip : Nat) :
+    ∀ (r : Nat) (e : Env), e.col = col → e.skipv = skip → e.len = e.lastRow.length → e.i + r = skip + 1 → 1 ≤ e.i →
+      e.brk = false → e.cont = false → e.ret = none → e.unknown = false →
+      let e' := loopI cw caps (r + 6) body2 e
+      e'.lastRow = (nullLoop cw true r (col + e.i) e.lastRow e.dirty).1 ∧
+      e'.dirty = (nullLoop cw true r (col + e.i) e.lastRow e.dirty).2 ∧
+      e'.unknown = false ∧ e'.brk = false ∧ e'.cont = false ∧ e'.ret = none ∧ e'.out = e.out ∧ e'.col = col ∧ e'.skipv = skip := by
+  intro r
+  induction r with
+  | zero =>
+    intro e hc hs hlen hi h1 hb hco hr hu e'
+    have : ¬ (e.i < e.skipv + 1) := by omega
+    simp only [e']
+    rw [show (0 : Nat) + 6 = 5 + 1 from rfl, loopI_succ, if_neg this]
+    simp [nullLoop, hu, hb, hco, hr, hc, hs]
+  | succ r ih =>
+    intro e hc hs hlen hi h1 hb hco hr hu e'
+    have hlt : e.i < e.skipv + 1 := by omega
+    simp only [e']
+    rw [show r + 1 + 6 = (r + 6) + 1 from by omega, loopI_succ, if_pos hlt]
+    cases hget : e.lastRow[col + e.i]? with
+    | none =>
+      have hbey : e.len ≤ col + e.i := by
+        rw [hlen]
+        rcases Nat.lt_or_ge (col + e.i) e.lastRow.length with h | h
+        · rw [List.getElem?_eq_getElem h] at hget; cases hget
+        · exact h
+      simp [body2, exec, evalG, evalS, List.takeWhile, List.dropWhile, hb, hco, hr, hbey, nullLoop, hget, hu, hc, hs]
+    | some l =>
+      have hin : ¬ (e.len ≤ col + e.i) := by
+        rw [hlen]
+        rcases Nat.lt_or_ge (col + e.i) e.lastRow.length with h | h
+        · omega
+        · rw [List.getElem?_eq_none h] at hget; cases hget
+      by_cases hd : col + e.i + advance cw l + 1 > e.dirty
+      · have hstep : exec cw caps (r + 6) body2 e =
+            { e with endv := col + e.i + advance cw l + 1, dirty := col + e.i + advance cw l + 1, lastRow := e.lastRow.set (col + e.i) {} } := by
+          simp [body2, exec, evalG, evalS, List.takeWhile, List.dropWhile, hb, hco, hr, hin, hget, hc, hd]
+        rw [hstep]
+        simp only [hb, Bool.false_eq_true, if_false]
+        have := ih { e with endv := col + e.i + advance cw l + 1, dirty := col + e.i + advance cw l + 1,
+                            lastRow := e.lastRow.set (col + e.i) {}, i := e.i + 1 } hc hs (by simp [hlen]) (by simp; omega) (by simp)
+          hb hco hr hu
+        simp only at this
+        simp only [nullLoop, hget, hd, and_true, if_true]
+        have e1 : col + (e.i + 1) = col + e.i + 1 := by omega
+        rw [e1] at this
+        simp only [hb] at this
+        exact this
+      · have hstep : exec cw caps (r + 6) body2 e =
+            { e with endv := col + e.i + advance cw l + 1, lastRow := e.lastRow.set (col + e.i) {} } := by
+          simp [body2, exec, evalG, evalS, List.takeWhile, List.dropWhile, hb, hco, hr, hin, hget, hc, hd]
+        rw [hstep]
+        simp only [hb, Bool.false_eq_true, if_false]
+        have := ih { e with endv := col + e.i + advance cw l + 1,
+                            lastRow := e.lastRow.set (col + e.i) {}, i := e.i + 1 } hc hs (by simp [hlen]) (by simp; omega) (by simp)
+          hb hco hr hu
+        simp only at this
+        simp only [nullLoop, hget, hd, and_false, if_false]
+        have e1 : col + (e.i + 1) = col + e.i + 1 := by omega
+        rw [e1] at this
+        simp only [hb] at this
+        exact this
+
+/-- The first nulling loop (in the unchanged branch: no `dirty` extension), from iteration `i` on. -/
+theorem loop1_eq (cw : String → Nat) (caps : Caps) (col skip : Nat) :
+    ∀ (r : Nat) (e : Env), e.col = col → e.skipv = skip → e.len = e.lastRow.length → e.i + r = skip + 1 → 1 ≤ e.i →
+      e.brk = false → e.cont = false → e.ret = none → e.unknown = false →
+      let e' := loopI cw caps (r + 6) body1 e
+      e'.lastRow = (nullLoop cw false r (col + e.i) e.lastRow e.dirty).1 ∧
+      e'.dirty = (nullLoop cw false r (col + e.i) e.lastRow e.dirty).2 ∧
+      e'.unknown = false ∧ e'.brk = false ∧ e'.cont = false ∧ e'.ret = none ∧ e'.out = e.out ∧ e'.col = col ∧ e'.skipv = skip := by
+  intro r
+  induction r with
+  | zero =>
+    intro e hc hs hlen hi h1 hb hco hr hu e'
+    have : ¬ (e.i < e.skipv + 1) := by omega
+    simp only [e']
+    rw [show (0 : Nat) + 6 = 5 + 1 from rfl, loopI_succ, if_neg this]
+    simp [nullLoop, hu, hb, hco, hr, hc, hs]
+  | succ r ih =>
+    intro e hc hs hlen hi h1 hb hco hr hu e'
+    have hlt : e.i < e.skipv + 1 := by omega
+    simp only [e']
+    rw [show r + 1 + 6 = (r + 6) + 1 from by omega, loopI_succ, if_pos hlt]
+    cases hget : e.lastRow[col + e.i]? with
+    | none =>
+      have hbey : e.len ≤ col + e.i := by
+        rw [hlen]
+        rcases Nat.lt_or_ge (col + e.i) e.lastRow.length with h | h
+        · rw [List.getElem?_eq_getElem h] at hget; cases hget
+        · exact h
+      simp [body1, exec, evalG, evalS, List.takeWhile, List.dropWhile, hb, hco, hr, hbey, nullLoop, hget, hu, hc, hs]
+    | some l =>
+      have hin : ¬ (e.len ≤ col + e.i) := by
+        rw [hlen]
+        rcases Nat.lt_or_ge (col + e.i) e.lastRow.length with h | h
+        · omega
+        · rw [List.getElem?_eq_none h] at hget; cases hget
+      have hstep : exec cw caps (r + 6) body1 e = { e with lastRow := e.lastRow.set (col + e.i) {} } := by
+        simp [body1, exec, evalG, evalS, List.takeWhile, List.dropWhile, hb, hco, hr, hin, hc]
+      rw [hstep]
+      simp only [hb, Bool.false_eq_true, if_false]
+      have := ih { e with lastRow := e.lastRow.set (col + e.i) {}, i := e.i + 1 } hc hs (by simp [hlen]) (by simp; omega) (by simp)
+        hb hco hr hu
+      simp only at this
+      simp only [nullLoop, hget, Bool.false_eq_true, false_and, if_false]
+      have e1 : col + (e.i + 1) = col + e.i + 1 := by omega
+      rw [e1] at this
+      simp only [hb] at this
+      exact this
+
+/-- **nullLoop_body_eq_model**: the two nulling loops `for i := 1; i < skip+1; i += 1 { … }` executed from the
+    extracted text — `break` at the end of the row, in the second loop the `dirty` extension by the glyph each
+    cleared cell used to hold, `last[col+i] = Cell{}` — compute `Lemmas/RenderLoop.nullLoop` (the row and
+    `dirty`), for every row, column, `skip` and `dirty`. -/
+theorem nullLoop_body_eq_model (cw : String → Nat) (caps : Caps) (L : List Cell) (col skip d : Nat) :
+    let e1 := runF cw caps (skip + 7) nullBlock1 { col := col, len := L.length, skipv := skip, lastRow := L, dirty := d }
+    let e2 := runF cw caps (skip + 7) nullBlock2 { col := col, len := L.length, skipv := skip, lastRow := L, dirty := d }
+    (e1.lastRow, e1.dirty) = nullLoop cw false skip (col + 1) L d ∧ e1.unknown = false ∧
+    (e2.lastRow, e2.dirty) = nullLoop cw true skip (col + 1) L d ∧ e2.unknown = false := by
+  obtain ⟨p1, p2⟩ := null_progs
+  intro e1 e2
+  simp only [e1, e2]
+  unfold runF
+  rw [p1, p2]
+  have h1 := loop1_eq cw caps col skip skip { col := col, len := L.length, skipv := skip, lastRow := L, dirty := d, i := 1 }
+    rfl rfl rfl (by simp; omega) (by simp) rfl rfl rfl rfl
+  have h2 := loop2_eq cw caps col skip skip { col := col, len := L.length, skipv := skip, lastRow := L, dirty := d, i := 1 }
+    rfl rfl rfl (by simp; omega) (by simp) rfl rfl rfl rfl
+  simp only [body1, body2] at h1 h2
+  obtain ⟨a1, a2, a3, a4, a5, a6, _⟩ := h1
+  obtain ⟨b1, b2, b3, b4, b5, b6, _⟩ := h2
+  rw [show skip + 7 = (skip + 6) + 1 from rfl]
+  have hx1 : ∀ (e : Env), exec cw caps (skip + 6) [] e = e := fun e => by
+    rw [show skip + 6 = (skip + 5) + 1 from rfl]; simp [exec]
+  simp [exec, List.takeWhile, List.dropWhile, hx1, a1, a2, a3, a4, a5, a6, b1, b2, b3, b4, b5, b6]
 
 /-! ### the whole row loop -/
 
